@@ -733,11 +733,17 @@ where
         job.set_worker_time();
         let key = job.key.clone();
         let options = job.options.clone();
+        #[cfg(ractor_verif)]
+        let verif_id = crate::verif::tag(&job.msg);
         match self.actor.cast(WorkerMessage::Dispatch(job)) {
             Ok(()) => {
+                #[cfg(ractor_verif)]
+                self.verif_cast(verif_id, &key, 1);
                 self.curr_jobs.insert(key, options);
             }
             Err(error) => {
+                #[cfg(ractor_verif)]
+                self.verif_cast(verif_id, &key, 0);
                 if let MessagingErr::SendErr(WorkerMessage::Dispatch(job)) = error {
                     self.message_queue.push_front(job);
                 } else {
@@ -864,6 +870,61 @@ where
     /// Set the draining status of the worker
     pub(crate) fn set_draining(&mut self, is_draining: bool) {
         self.is_draining = is_draining;
+    }
+
+    /// cfg-only: a job was handed (d = 1) or could not be handed (d = 0) to the worker actor
+    #[cfg(ractor_verif)]
+    fn verif_cast(&self, id: i64, key: &TKey, ok: i64) {
+        use crate::verif::Val;
+        crate::verif::emit_kv(
+            "factory.cast",
+            self.actor.get_id().pid(),
+            ok,
+            vec![
+                ("wid".to_string(), Val::I(self.wid as i64)),
+                ("id".to_string(), Val::I(id)),
+                ("key".to_string(), Val::I(crate::verif::tag(key))),
+            ],
+        );
+    }
+
+    /// cfg-only: the factory's bookkeeping for this slot as a JSON object
+    #[cfg(ractor_verif)]
+    pub(crate) fn verif_snapshot(&self) -> String {
+        let mq: Vec<i64> = self
+            .message_queue
+            .iter()
+            .map(|j| crate::verif::tag(&j.msg))
+            .collect();
+        let mut cur: Vec<i64> = self
+            .curr_jobs
+            .keys()
+            .map(|k| crate::verif::tag(k))
+            .collect();
+        cur.sort_unstable();
+        let mut pend: Vec<(i64, i64)> = self
+            .pending_key_counts
+            .iter()
+            .map(|(k, c)| (crate::verif::tag(k), *c as i64))
+            .collect();
+        pend.sort_unstable();
+        let pend: Vec<String> = pend.iter().map(|(k, c)| format!("[{k},{c}]")).collect();
+        let (lim, mode) = match self.discard_settings.get_limit_and_mode() {
+            None => (-1, "none"),
+            Some((l, DiscardMode::Newest)) => (l as i64, "newest"),
+            Some((l, DiscardMode::Oldest)) => (l as i64, "oldest"),
+        };
+        format!(
+            "{{\"wid\":{},\"pid\":{},\"mq\":{},\"cur\":{},\"pend\":[{}],\"dr\":{},\"lim\":{},\"mode\":\"{}\"}}",
+            self.wid,
+            self.actor.get_id().pid(),
+            crate::verif::json_list(&mq),
+            crate::verif::json_list(&cur),
+            pend.join(","),
+            i64::from(self.is_draining),
+            lim,
+            mode
+        )
     }
 }
 
